@@ -24,7 +24,17 @@ RULE = ("exhaustive over the finite colour space: the 8 names x fg/bg, all 256 i
         "colour/bg/effect combinations; CHText objects of 1-6 parts over a pool of formatters with equal-prefix "
         "neighbours, empty texts and plain str parts; strip_colors on random strings over an alphabet of ESC [ ; : "
         "digits m letters.  Texts contain ';', ':', 'm', '[', digits, newlines and non-ASCII characters.  "
-        "Non-trivial = distinct case in which a formatter is constructed or a string containing ESC is stripped.")
+        "Texts are mutable, so every kind of value is also reached through HISTORIES (kind 'seq'): one pool of 1-5 ColorFmt/"
+        "ColorBytes objects created once (with the formatters a coarse cache key would confuse: same colours/other effects, fg/bg "
+        "swapped, no_color, 1/True/1.0, tuple/list/int of one cube colour, 'g0'/232, 'RED'/1), one pool of 3-7 piece objects "
+        "(chunks / strs, created once, added to several texts several times), 1-3 texts and 4-20 operations: x += piece / list / "
+        "tuple / other text / itself, CHText(*pieces), CHText(x), x + pieces, piece + x, interleaved with up to 8 observations "
+        "(str, plain_text, len, strip_colors of a text; str of a piece; a bytes formatter on a new text).  ~260 random histories "
+        "(a changed text is re-rendered after about half of the changes) + ~450 systematic ones: render / change / render twice for "
+        "every kind of += x every seam (same colour = merge into the last chunk, other colour, plain after plain, empty piece, first "
+        "piece, several), copy and source changed separately, one piece in two texts, text added to itself, x + p leaves x alone.  "
+        "Non-trivial = distinct case in which a formatter is constructed or a string containing ESC is stripped (for a history: "
+        "a coloured piece and at least one observation).")
 TRUSTED_BASE = [
     "coq/C09/Term.v: the reference terminal (ECMA-48 CSI/SGR interpreter with ITU T.416 ':' sub-parameters for "
     "38:5:n / 48:5:n) is the specification device that gives 'shows', 'default state' and 'bleed' their meaning; it is "
@@ -44,7 +54,9 @@ ASSUMPTIONS = [
     "invalid colours combined with no_color=True (ignored by design)",
 ]
 MODELLED = ("ak/color.py: _ColorSequences (make, _make_seq_element), _CHTextChunk.__str__, CHText(*parts) via "
-            "_append_chunk, __str__, plain_text, len, strip_colors, ColorFmt, ColorBytes.  Not modelled: slicing, "
+            "_append_chunk, __str__, plain_text, len, strip_colors, ColorFmt, ColorBytes; CHText as a MUTABLE object: "
+            "__iadd__ (chunk, str, list, tuple, CHText incl. itself) on a text that already has chunks, CHText(other), __add__, "
+            "__radd__ / Chunk.__add__, with renderings in between (coq/C09/Seq.v).  Not modelled: slicing, "
             "formatting and the other CHText operations (property C08), Palette/ColorsConfig (C14)")
 
 ESC = "\x1b"
@@ -1611,7 +1623,8 @@ def shrink_candidates(case):
 
 TECHNIQUE = ("Coq proof (induction over chunk lists and parameter lists, exhaustive computation over the 256 colour codes) on a "
              "hand-written Gallina model + reference ECMA-48 terminal as specification + per-run correspondence check "
-             "(vm_compute vs implementation) + constants regenerated from the source")
+             "(vm_compute vs implementation, single calls and operation sequences on shared mutable objects) + constants "
+             "regenerated from the source")
 LEVEL_TEXT = ("Full, about the model of ak/color.py, for unbounded lists of parts and texts: term_shows / chunk_shows (a reference "
               "ECMA-48 terminal starting in default state shows every character with exactly the requested fg, bg and effects, for "
               "the 8 names, ints 0..255, (r,g,b) tuples/lists, g0..g23, all 32 effect combinations, and ends in default state), "
@@ -1619,12 +1632,18 @@ LEVEL_TEXT = ("Full, about the model of ak/color.py, for unbounded lists of part
               "(strip_colors(str(x)) == x.plain_text() == the texts), sgr_wellformed (ESC[p(;p)*m, p = digits(:digits)*, suffix "
               "ESC[0m), no_color_no_esc, bytes_same (ColorBytes == encoded ColorFmt, same accept/reject), invalid_raises (everything "
               "outside the exactly characterised accepted set raises ValueError, colour first then background) with accepted_exact, "
-              "colour_of_iff.  The name table, effect codes and order, prefix/suffix literals, all thresholds/multipliers, the "
+              "colour_of_iff.  Texts are mutable: incremental_same (x += parts, x += other text, CHText(other) give exactly the chunk "
+              "list of the text built at once), seq_incremental (after ANY sequence of +=, CHText(..), x + p, p + x on n texts over shared "
+              "pieces every text is the text built at once from the pieces of its history), seq_strip_render and seq_shows (strip_render, "
+              "no bleed and term_shows in every reachable state).  That the implementation's str()/plain_text()/len() depend on the "
+              "current chunk list only (no memo, no aliasing between texts) is NOT a theorem: it is what the correspondence check on "
+              "~710 operation sequences per run (render, change, render again) tests.  The name table, effect codes and order, prefix/suffix literals, all thresholds/multipliers, the "
               "isinstance guards added by the repairs and the strip pattern's character class are re-read from the source on every "
               "run and the obligations about them (table = ANSI table, all 256 codes parse back to Idx n, class covers digits ; : "
-              "and excludes m, ...) are re-proved by computation.  The model is compared with the implementation on ~2200 (quick) / "
-              "~9800 (thorough) cases per run including the exhaustive sweep of the finite colour space.  Not proved, tested only: "
+              "and excludes m, ...) are re-proved by computation.  The model is compared with the implementation on ~2950 (quick) / "
+              "~15000 (thorough) cases per run including the exhaustive sweep of the finite colour space.  Not proved, tested only: "
               "int() on non-ASCII digit strings after 'g' and \\d matching non-ASCII digits (outside the model, oracle only).")
-LEVEL_NOTE = ("Trusted: Coq kernel + vm_compute; the hand model's fidelity (checked by correspondence, not proved); the reference "
+LEVEL_NOTE = ("Trusted: Coq kernel + vm_compute; the hand model's fidelity (checked by correspondence, not proved; the model is a pure "
+              "function of the operation history, so hidden state of the implementation shows only on the histories that are run); the reference "
               "terminal Term.v as the meaning of 'shows'; re.sub / int() / str.encode semantics; the ast extractor and harness.")
 DESIGN_REF = "DESIGN.md section 8, C09"
